@@ -24,7 +24,12 @@ def run(ctx):
                                 "bound:fgen_regmove_virt_restricted": n // 25, "bound:fgen_virt_next_to_restricted_instrs": n // 16,
                                 "bound:regmove_virt_phys": n // 10, "bound:regmove_virt_virt": n // 25,
                                 "bound:rcopy_functions": n // 16, "rcopy_kind:k": n // 100, "rcopy:from": n // 50,
-                                "rcopy:into": n // 100, "rcopy:both": n // 100, "rcopy:interf": n // 100})
+                                "rcopy:into": n // 100, "rcopy:both": n // 100, "rcopy:interf": n // 100,
+                                # function-level context (c01Decorate): attribute class x what makes a wrong colour set visible
+                                **{f"bound:attr:{a}:gp_live_ge5": n // 125 for a in c01.MAIN_ATTRS},
+                                **{f"bound:attr:{a}:virt_opmask": n // 60 for a in c01.MAIN_ATTRS},
+                                **{f"bound:attr:{a}:gp_live_ge5": n // 250 for a in ("other", "other_with_NOFRAME")},
+                                **{f"bound:attr:{a}:virt_opmask": n // 125 for a in ("other", "other_with_NOFRAME")}})
         c01.ceilings(ctx, "c01", {"cfg_rejected": n // 50, "liveness_error": 0})
         c01.exact_model_info(ctx)
     c01.file_route(ctx)
@@ -34,7 +39,10 @@ def run(ctx):
         "operands and address registers of any opcode next to virtual registers; plain register-to-register moves MOVB/MOVW/MOVL/MOVQ/KMOVx/"
         "MOVOU/VMOVDQU between a virtual register and a restricted / other physical / virtual register in both directions; and the idioms "
         "'a virtual register is a copy of SP / K0' and 'is copied into SP / K0' with and without interference, under pressure below, at and "
-        "above the register file — all with sample floors counted on successfully BOUND functions). accept-bind (sound: theorem checkBind_sound ⇒ statement BoundOK ∧ Unreserved): "
+        "above the register file — all with sample floors counted on successfully BOUND functions; every function, in the single-function "
+        "streams and in the file route, carries a function-level context drawn by c01Decorate: text attributes none / NOSPLIT / NOFRAME / "
+        "NOSPLIT|NOFRAME / NEEDCTXT / NOSPLIT|NEEDCTXT|NOFRAME / arbitrary 12-bit flag sets, a local frame or none, a signature or the void "
+        "default, with floors per attribute class x {>= 5 virtual GP registers live at once, a virtual opmask register} on bound functions). accept-bind (sound: theorem checkBind_sound ⇒ statement BoundOK ∧ Unreserved): "
         "every register found after BindRegisters in the OPERANDS, the declared INPUTS and the declared OUTPUTS of every instruction — "
         "enumerated by the harness's own traversal of the operand values (register operands; base and index of memory operands), not by "
         "Instruction.Registers()/operand.Registers — is physical; an author-chosen or implicit physical register is unchanged; every "
